@@ -22,11 +22,7 @@ func c05Enabled(s *c01State, op c01Op) bool {
 	case c01KEnd:
 		return s.open
 	case c01KPeer, c01KLimit:
-		// One size change between two blocks: two consecutive changes run
-		// into the decoder defect that C01 reports
-		// (C01/decode-error/two-size-updates-at-block-start), which is not
-		// this property's subject.
-		return !s.open && !s.updPending
+		return !s.open // between blocks only
 	}
 	return true
 }
@@ -264,7 +260,7 @@ func TestVerif_C05(t *testing.T) {
 		}
 		depth := 1 << 20 // until the reachable state space is closed
 		c.Rule(fmt.Sprintf("breadth-first search to closure (depth bound %d) over every sequence of operations {%s} on one real Encoder + one real Decoder + an RFC 7541 reference decoder, states deduplicated on (encoder/decoder/reference tables and sizes, pending size update, set of pairs written non-sensitive, open-block flags). Each WriteField output is parsed by the reference decoder and fed to Decoder.Write immediately. On every sensitive write: the representation is a never-indexed literal (0001xxxx) carrying the pair, the encoder table is unchanged, the decoder emits it once with Sensitive set and its table is unchanged; after every write: every entry of the encoder, decoder and reference tables is a pair that was written non-sensitive at least once, and every indexed representation resolves to such a pair. non-trivial = an applied and compared transition; distinct = distinct (situation, bytes, table) of sensitive writes", depth, strings.Join(labels, " ")))
-		c.Assume("At most one table-size change between two header blocks (two consecutive changes hit the decoder defect reported by C01); sizes {0,70,4096} (thorough adds 33 and encoder-local limits 0/4096); 5 name/value pairs (static full match, static name match, two pairs sharing a name, a Huffman-coded value; thorough adds the empty pair).")
+		c.Assume("Table-size changes happen between header blocks only; sizes {0,70,4096} (thorough adds 33 and encoder-local limits 0/4096); 5 name/value pairs (static full match, static name match, two pairs sharing a name, a Huffman-coded value; thorough adds the empty pair).")
 		c.Assume("Round-trip fidelity of non-sensitive fields is C01's subject and is not judged here.")
 		vx.Seq(c, vx.SeqSpec[*c01State, c01Op]{
 			Part:    "seq",
